@@ -474,7 +474,7 @@ def run_query(q, replay_dir, prop_id):
                 _heavy_cv.wait()
             _heavy_used += need
     try:
-        return _run_query(q, replay_dir, prop_id)
+        return _run_query_outer(q, replay_dir, prop_id)
     finally:
         if heavy:
             with _heavy_cv:
@@ -482,7 +482,7 @@ def run_query(q, replay_dir, prop_id):
                 _heavy_cv.notify_all()
 
 
-def _run_query(q, replay_dir, prop_id):
+def _run_query_outer(q, replay_dir, prop_id):
     """Runs the query; on failures, obtains a trace and replays natively.
     Returns a result dict."""
     if isinstance(q, PyQuery):
